@@ -1,6 +1,7 @@
 #!/bin/bash
 # tools/dev.sh Cxx contracts.module [filter] : run pyvc.run with the property's settings (FLOAT_AS etc.)
 cd /verif
+export PYTHONHASHSEED=0
 python3-vt - "$@" <<'PY' 2>&1 | cut -c1-${COLS:-260}
 import sys
 pid, mod = sys.argv[1], sys.argv[2]
